@@ -333,6 +333,8 @@ func (co *ClipperOffset) doGroupOffset(group *Group) {
 		cnt := len(p)
 
 		switch cnt {
+		case 0:
+			continue
 		case 1:
 			if co.deltaCallback != nil {
 				co.groupDelta = (*co.deltaCallback)(&p, &co.normals, 0, 0)
